@@ -12,6 +12,7 @@ import (
 	"go/parser"
 	"go/token"
 	"path/filepath"
+	"regexp"
 	"strconv"
 	"strings"
 )
@@ -19,7 +20,7 @@ import (
 // C04Expr is a condition/arithmetic expression over the named quantities of the model
 // (coq/Lib/C04_Expr.v).
 type C04Expr struct {
-	Op    string // avar bvar const div mul add le lt ge gt eq and or not
+	Op    string // avar bvar const div mul add sub le lt ge gt eq and or not
 	Name  string // for avar/bvar: NUM COUNT GAS GASLIMIT / AVAIL
 	Const uint64
 	Args  []*C04Expr
@@ -42,8 +43,16 @@ type C04Sites struct {
 	CountRuleReturnsErr   bool
 	GasRuleReturnsErr     bool
 	CountRule, GasRule    *C04Expr
-	NPushCalls, NPopCalls int      // call sites of PushETXs/PushETX and PopETX inside Process
-	Problems              []string // things that could not be located / understood
+	NPushCalls, NPopCalls int // call sites of PushETXs/PushETX and PopETX inside Process
+	// core/block_validator.go:ValidateState: `if root := statedb.ETXRoot(); header.EtxSetRoot() != root { return err }`
+	PosValidateEtxRoot   int
+	ValidateEtxRootError bool
+	// Process opens the state at the parent's ETX-set root (state.New(.., parentEtxSetRoot, ..))
+	StateAtParentEtxRoot bool
+	// anchored regular expressions matching the error texts of the four refusal sites (built from the
+	// fmt.Errorf format strings found there); used only to classify errors of an end-to-end Process run
+	NilRe, CmpRe, CountRe, GasRe string
+	Problems                     []string // things that could not be located / understood
 }
 
 func (s *C04Sites) problem(f string, a ...any) { s.Problems = append(s.Problems, fmt.Sprintf(f, a...)) }
@@ -140,6 +149,48 @@ func ExtractC04Sites(repo string, params map[string]uint64) (*C04Sites, error) {
 		}
 	}
 
+	// ---- block_validator.go: the header's ETX-set root is compared with the root of the queue trie
+	if vf, err := parser.ParseFile(fset, filepath.Join(repo, "core/block_validator.go"), nil, 0); err == nil {
+		for _, d := range vf.Decls {
+			f, ok := d.(*ast.FuncDecl)
+			if !ok || f.Name.Name != "ValidateState" || f.Body == nil {
+				continue
+			}
+			for _, st := range f.Body.List {
+				ifs, ok := st.(*ast.IfStmt)
+				if !ok || ifs.Init == nil {
+					continue
+				}
+				as, ok := ifs.Init.(*ast.AssignStmt)
+				if !ok || len(as.Lhs) != 1 || len(as.Rhs) != 1 {
+					continue
+				}
+				c, ok := as.Rhs[0].(*ast.CallExpr)
+				if !ok {
+					continue
+				}
+				if sel, ok := c.Fun.(*ast.SelectorExpr); !ok || sel.Sel.Name != "ETXRoot" {
+					continue
+				}
+				v := exprString(fset, as.Lhs[0])
+				cond := exprString(fset, ifs.Cond)
+				if cond == "header.EtxSetRoot()!="+v || cond == v+"!=header.EtxSetRoot()" || cond == "block.EtxSetRoot()!="+v {
+					s.PosValidateEtxRoot = fset.Position(ifs.Pos()).Line
+					if n := len(ifs.Body.List); n > 0 {
+						if r, ok := ifs.Body.List[n-1].(*ast.ReturnStmt); ok && len(r.Results) == 1 {
+							if id, ok := r.Results[0].(*ast.Ident); !ok || id.Name != "nil" {
+								s.ValidateEtxRootError = true
+							}
+						}
+					}
+				}
+			}
+		}
+	}
+	if s.PosValidateEtxRoot == 0 {
+		s.problem("block_validator.go: ValidateState does not compare header.EtxSetRoot() with statedb.ETXRoot()")
+	}
+
 	// ---- state_processor.go: Process
 	pf, err := parser.ParseFile(fset, filepath.Join(repo, "core/state_processor.go"), nil, 0)
 	if err != nil {
@@ -186,7 +237,18 @@ func ExtractC04Sites(repo string, params map[string]uint64) (*C04Sites, error) {
 	inboundVar := ""
 	ast.Inspect(fn.Body, func(n ast.Node) bool {
 		as, ok := n.(*ast.AssignStmt)
-		if !ok || as.Tok != token.DEFINE || len(as.Lhs) != len(as.Rhs) {
+		if !ok || as.Tok != token.DEFINE {
+			return true
+		}
+		if len(as.Lhs) != len(as.Rhs) {
+			// v, err := f(...)
+			if len(as.Rhs) == 1 {
+				if id, ok := as.Lhs[0].(*ast.Ident); ok {
+					if _, dup := defs[id.Name]; !dup {
+						defs[id.Name] = as.Rhs[0]
+					}
+				}
+			}
 			return true
 		}
 		for i, l := range as.Lhs {
@@ -214,6 +276,20 @@ func ExtractC04Sites(repo string, params map[string]uint64) (*C04Sites, error) {
 		}
 		return true
 	})
+
+	// statedb := state.New(parentEvmRoot, parentEtxSetRoot, ...) with parentEtxSetRoot := parent.Header().EtxSetRoot()
+	if d, ok := defs["statedb"]; ok {
+		if c := isCall(d, "New"); c != nil && len(c.Args) >= 2 {
+			if id, ok := c.Args[1].(*ast.Ident); ok {
+				if dd, ok := defs[id.Name]; ok && strings.HasPrefix(exprString(fset, dd), "parent.") && strings.HasSuffix(exprString(fset, dd), "EtxSetRoot()") {
+					s.StateAtParentEtxRoot = true
+				}
+			}
+		}
+	}
+	if !s.StateAtParentEtxRoot {
+		s.problem("Process: the state is not opened at the parent's ETX-set root")
+	}
 
 	// the statement-level scan of the function body
 	var loop *ast.RangeStmt
@@ -322,6 +398,7 @@ func ExtractC04Sites(repo string, params map[string]uint64) (*C04Sites, error) {
 			if popVar != "" && (c == popVar+"==nil" || c == "nil=="+popVar) && s.PosNil == 0 {
 				s.PosNil = line(x.Pos())
 				s.NilReturnsErr = returnsErr(x.Body)
+				s.NilRe = errRegexp(x.Body)
 			}
 			if be, ok := x.Cond.(*ast.BinaryExpr); ok && popVar != "" && s.PosCmp == 0 {
 				l, r := exprString(fset, be.X), exprString(fset, be.Y)
@@ -330,6 +407,7 @@ func ExtractC04Sites(repo string, params map[string]uint64) (*C04Sites, error) {
 					s.PosCmp = line(x.Pos())
 					s.CmpOp = be.Op.String()
 					s.CmpReturnsErr = returnsErr(x.Body)
+					s.CmpRe = errRegexp(x.Body)
 				}
 			}
 		}
@@ -377,18 +455,20 @@ func ExtractC04Sites(repo string, params map[string]uint64) (*C04Sites, error) {
 				stmtString(fset, x.Body.List[0]) == "etxAvailable=true" {
 				s.PosAvail = line(x.Pos())
 			}
-			if strings.Contains(c, "etxCount") && strings.Contains(c, "minimumEtxCount") && s.PosCountRule == 0 {
+			if strings.Contains(c, "etxCount") && s.PosCountRule == 0 {
 				s.PosCountRule = line(x.Pos())
 				s.CountRuleReturnsErr = returnsErr(x.Body)
+				s.CountRe = errRegexp(x.Body)
 				e, err := convB(fset, x.Cond, defs, params, 0)
 				if err != nil {
 					s.problem("Process: count rule: %v", err)
 				}
 				s.CountRule = e
 			}
-			if strings.Contains(c, "totalEtxGas") && strings.Contains(c, "minimumEtxGas") && s.PosGasRule == 0 {
+			if strings.Contains(c, "totalEtxGas") && s.PosGasRule == 0 {
 				s.PosGasRule = line(x.Pos())
 				s.GasRuleReturnsErr = returnsErr(x.Body)
+				s.GasRe = errRegexp(x.Body)
 				e, err := convB(fset, x.Cond, defs, params, 0)
 				if err != nil {
 					s.problem("Process: gas rule: %v", err)
@@ -413,6 +493,37 @@ func ExtractC04Sites(repo string, params map[string]uint64) (*C04Sites, error) {
 		s.problem("Process: ETX gas rule not found after the loop")
 	}
 	return s, nil
+}
+
+var fmtVerb = regexp.MustCompile(`%[-+# 0]*[0-9]*(\.[0-9]+)?[a-zA-Z]`)
+
+// errRegexp turns the format string of the fmt.Errorf returned at the end of b into an anchored
+// regular expression ("" if there is none).
+func errRegexp(b *ast.BlockStmt) string {
+	if b == nil || len(b.List) == 0 {
+		return ""
+	}
+	r, ok := b.List[len(b.List)-1].(*ast.ReturnStmt)
+	if !ok || len(r.Results) == 0 {
+		return ""
+	}
+	c, ok := r.Results[len(r.Results)-1].(*ast.CallExpr)
+	if !ok || len(c.Args) == 0 {
+		return ""
+	}
+	lit, ok := c.Args[0].(*ast.BasicLit)
+	if !ok || lit.Kind != token.STRING {
+		return ""
+	}
+	f, err := strconv.Unquote(lit.Value)
+	if err != nil {
+		return ""
+	}
+	parts := fmtVerb.Split(f, -1)
+	for i := range parts {
+		parts[i] = regexp.QuoteMeta(parts[i])
+	}
+	return "^" + strings.Join(parts, ".*") + "$"
 }
 
 func starX(e ast.Expr) ast.Expr {
@@ -531,7 +642,7 @@ func convA(fset *token.FileSet, e ast.Expr, defs map[string]ast.Expr, params map
 		}
 		return nil, fmt.Errorf("unknown call %s", str)
 	case *ast.BinaryExpr:
-		op := map[token.Token]string{token.QUO: "div", token.MUL: "mul", token.ADD: "add"}[x.Op]
+		op := map[token.Token]string{token.QUO: "div", token.MUL: "mul", token.ADD: "add", token.SUB: "sub"}[x.Op]
 		if op != "" {
 			a, err := convA(fset, x.X, defs, params, depth)
 			if err != nil {
@@ -566,6 +677,8 @@ func (e *C04Expr) Coq() string {
 		return bin("AMul")
 	case "add":
 		return bin("AAdd")
+	case "sub":
+		return bin("ASub")
 	case "le":
 		return bin("BLe")
 	case "lt":
@@ -617,6 +730,12 @@ func (e *C04Expr) EvalA(env C04Env) uint64 {
 		return e.Args[0].EvalA(env) * e.Args[1].EvalA(env)
 	case "add":
 		return e.Args[0].EvalA(env) + e.Args[1].EvalA(env)
+	case "sub":
+		a, b := e.Args[0].EvalA(env), e.Args[1].EvalA(env)
+		if b > a {
+			return 0
+		}
+		return a - b
 	}
 	return 0
 }
